@@ -391,14 +391,27 @@ func c15R2(p *Prog, r *Report) {
 					n++
 					rs := fc.G.V[ret].Node.(*ast.ReturnStmt)
 					last := ast.Unparen(rs.Results[len(rs.Results)-1])
-					c, ok := last.(*ast.CallExpr)
-					if !ok {
-						good = false
-						continue
+					errField := map[string]string{"rdRx": "readError", "wrTx": "writeError"}[s.data]
+					// the close error: onceError.Load of this direction's error, directly or through a
+					// helper that returns it — or, with that helper written out in place, any return
+					// that lies behind such a Load executed inside the done case (the Load's value or
+					// its io.EOF translation)
+					viaCall := false
+					if c, ok := last.(*ast.CallExpr); ok {
+						viaCall = returnsCloseError(p, fc, Callee(info, c), c, errField)
 					}
-					fn := Callee(info, c)
-					// the close error: onceError.Load of this direction's error, directly or through a helper that returns it
-					if !returnsCloseError(p, fc, fn, c, map[string]string{"rdRx": "readError", "wrTx": "writeError"}[s.data]) {
+					behindLoad := false
+					for _, cs := range fc.AllCalls() {
+						if cs.Fn != nil && cs.Fn.Name() == "Load" && namedTypeName(recvTypeOf(cs.Fn)) == "onceError" {
+							if sel, ok := ast.Unparen(cs.Call.Fun).(*ast.SelectorExpr); ok {
+								if fs, ok := ast.Unparen(sel.X).(*ast.SelectorExpr); ok && fs.Sel.Name == errField &&
+									fc.G.Dominates([]int{have[s.done]}, cs.V) && fc.G.Dominates([]int{cs.V}, ret) {
+									behindLoad = true
+								}
+							}
+						}
+					}
+					if !viaCall && !behindLoad {
 						good = false
 					}
 				}
